@@ -509,6 +509,18 @@ func c14Errors() []c14Text {
 		{"unbound-parameter", gram.Leaf{Toks: []string{"{unbound}"}}},
 		{"malformed-date", gram.Leaf{Toks: []string{"2023-13-45T00:00:00Z"}}},
 		{"malformed-date", gram.Leaf{Toks: []string{"2023-02-30T25:00:00Z"}}},
+		// well-formed except for the zone designator RFC 3339 requires (the lexer's date token makes it optional)
+		{"malformed-date", gram.Leaf{Toks: []string{"2030-06-01T12:00:00"}}},
+		{"malformed-date", gram.Leaf{Toks: []string{"2030-06-01T12:00:00.5"}}},
+		// one field just out of range
+		{"malformed-date", gram.Leaf{Toks: []string{"2023-06-31T00:00:00Z"}}},
+		{"malformed-date", gram.Leaf{Toks: []string{"2023-02-29T00:00:00+01:00"}}},
+		{"malformed-date", gram.Leaf{Toks: []string{"2023-01-01T24:00:00Z"}}},
+		{"malformed-date", gram.Leaf{Toks: []string{"2023-01-01T00:60:00Z"}}},
+		{"malformed-date", gram.Leaf{Toks: []string{"2023-01-01T00:00:61-02:00"}}},
+		// byte literals: odd digit counts of several lengths
+		{"malformed-bytes", gram.Leaf{Toks: []string{"hex:a"}}},
+		{"malformed-bytes", gram.Leaf{Toks: []string{"hex:12345"}}},
 		{"malformed-bytes", gram.Leaf{Toks: []string{"hex:0g"}}},
 		{"malformed-bytes", gram.Leaf{Toks: []string{"hex:abc"}}},
 		{"variable-in-set", gram.Leaf{Toks: []string{"[", "$v", "]"}}},
